@@ -16,7 +16,7 @@ PROPS = {
                 "UDP/TCP/ICMP/other, length fields below/at/above the truth, truncation sweeps, trailing bytes, "
                 "flips, noise, all 65536 ether types) decoded by the strict slicers and by the reference decoder; "
                 "a case is non-trivial if the reference decoder got past the first header or found the fault "
-                "behind it; distinct = distinct (entry point, layer sequence, outcome class, faulty layer) signatures; engine big: the same judgement on packets whose true sizes lie around 2^16 (65535 -/+ header sizes, 65536, 70 000, 131 072: where 16 bit length arithmetic would wrap); engines bytesweep / wordsweep: one header byte of a clean packet through all 256 values, one aligned 16 bit header word through all 65 536 values",
+                "behind it; distinct = distinct (entry point, layer sequence, outcome class, faulty layer) signatures; engine big: the same judgement on packets whose true sizes lie around 2^16 (65535 -/+ header sizes, 65536, 70 000, 131 072: where 16 bit length arithmetic would wrap); engines bytesweep / wordsweep: one header byte of a clean packet through all 256 values, one aligned 16 bit header word through all 65 536 values; the packet-level accessor methods (ether_payload(), ip_payload(), vlan_ids(), is_ip_payload_fragmented()) are judged against the reference layers as well",
         "assumptions": COMMON_ASSUME + [
             "reference decoder R (harness/src/refmodel/pkt.rs) is right about the wire formats; it is itself "
             "checked against the generator's recipe on every clean packet",
@@ -30,6 +30,7 @@ PROPS = {
             "error_kind.Len:*": 100, "error_kind.Content:*": 100,
             "big_cases": 5000,
             "bytesweep_cases": 100000, "wordsweeps": 16,
+            "packet_accessors_agree": 100000,
         },
     },
     "C07": {
@@ -64,7 +65,7 @@ PROPS = {
                 "IpHeaders::*_lax x3, LaxMacsecSlice, UdpSlice::from_slice_lax, Ipv6Extensions(Slice)::from_slice_lax) compared with "
                 "(a) the strict sibling on the same bytes (incl. stop error = strict error where both stop at one single-description fault) "
                 "and (b) the reference decoder in lax mode; non-trivial = decoded past "
-                "the first header or recorded a stop error; distinct = distinct (entry point, layer sequence, stop error class, stop layer); engine big: the same judgement on packets whose true sizes lie around 2^16 (65535 -/+ header sizes, 65536, 70 000, 131 072: where 16 bit length arithmetic would wrap); engines bytesweep / wordsweep: one header byte of a clean packet through all 256 values, one aligned 16 bit header word through all 65 536 values",
+                "the first header or recorded a stop error; distinct = distinct (entry point, layer sequence, stop error class, stop layer); engine big: the same judgement on packets whose true sizes lie around 2^16 (65535 -/+ header sizes, 65536, 70 000, 131 072: where 16 bit length arithmetic would wrap); engines bytesweep / wordsweep: one header byte of a clean packet through all 256 values, one aligned 16 bit header word through all 65 536 values; where strict parsing succeeds the packet-level accessor methods of the lax result must answer like those of the strict one",
         "assumptions": COMMON_ASSUME + [
             "reference decoder R in lax mode (DESIGN appendix B) incl. the documented relaxations (IPv4 total_len / IPv6 "
             "payload_len / MACsec short length / UDP length fall back to the slice)",
@@ -78,6 +79,7 @@ PROPS = {
             "lax.single_agree": 1000, "stop_error_equals_strict_error": 10000,
             "big_cases": 5000,
             "bytesweep_cases": 100000, "wordsweeps": 16,
+            "strict_ok_lax_accessors_same": 10000,
         },
     },
     "C04": {
@@ -109,7 +111,7 @@ PROPS = {
                 "(b) from_ethernet vs from_ether_type on the bytes behind the Ethernet II header (offsets +14) and (c) from_ether_type"
                 "(IPv4/IPv6) vs from_ip in all 4 decoder families, (d) read() from a Cursor vs from_slice() for 24 reader entry points "
                 "of 17 header types incl. cursor position; errors compared after projecting sibling layer names; equality demanded only "
-                "for single-fault inputs; distinct = distinct (rule, entry point, outcome signature); engine api: the deprecated read_from_slice doors (6 header types) and Ethernet2Header::from_bytes equal from_slice, value and rest; engine big: the same judgement on packets whose true sizes lie around 2^16 (65535 -/+ header sizes, 65536, 70 000, 131 072: where 16 bit length arithmetic would wrap); the skip walkers over a slice (Ipv6Header::skip_header_extension_in_slice / skip_all_…) against a reference walk, and their io::Read doors against them; engine bytesweep: one header byte of a clean packet through all 256 values",
+                "for single-fault inputs; distinct = distinct (rule, entry point, outcome signature); engine api: the deprecated read_from_slice doors (6 header types) and Ethernet2Header::from_bytes equal from_slice, value and rest; engine big: the same judgement on packets whose true sizes lie around 2^16 (65535 -/+ header sizes, 65536, 70 000, 131 072: where 16 bit length arithmetic would wrap); the skip walkers over a slice (Ipv6Header::skip_header_extension_in_slice / skip_all_…) against a reference walk, and their io::Read doors against them; engine bytesweep: one header byte of a clean packet through all 256 values; one read case in three uses a source that delivers 1-4 octets per call and is interrupted now and then",
         "assumptions": COMMON_ASSUME + [
             "a too short slice corresponds to io::ErrorKind::UnexpectedEof of a reader",
             "rules that depend on the total slice length (ICMPv4 timestamp exact size, IP total length vs slice) are excluded when only the slice decoder can know them",
@@ -125,6 +127,7 @@ PROPS = {
             "big_cases": 5000,
             "api.c06.skip_in_slice_ok": 10000, "api.c06.skip_in_slice_rejects": 10000, "api.c06.skip_reader_same": 10000,
             "bytesweep_cases": 100000,
+            "read_vs_slice.chunked_source": 100000,
         },
     },
     "C01": {
@@ -272,6 +275,7 @@ PROPS = {
                       "accepted.PacketBuilder(udp/ipv6)": 100, "accepted.PacketBuilder(raw/ipv4)": 20,
             "pseudo6_exact.TcpSlice::calc_checksum_ipv6": 8, "pseudo6_exact.Icmpv6Type::calc_checksum": 8,
             "tcp_elements.sack_with_hole": 1000, "accepted.TcpOptions::try_from_elements": 1000, "rejected.TcpHeader::set_options": 1000, "rejected.PacketBuilder::tcp().options": 1000,
+            "pseudo4_exact": 32, "accepted.TcpHeaderSlice::calc_checksum_ipv4_raw": 32, "rejected.TcpSlice::calc_checksum_ipv4": 8,
         },
         "min_distinct": {"accepted.*": 36, "rejected.*": 36},
     },
